@@ -64,7 +64,9 @@ type sworld struct {
 // newSWorld builds a world with the given columns, seeds R0 and R1 with the seed
 // writes and installs apply-order triggers on the watched columns.
 func newSWorld(cfg model.Config, seed []model.Write, watch ...string) *sworld {
-	cfg.Logger = "codec"
+	if cfg.Logger == "" {
+		cfg.Logger = "codec"
+	}
 	sw := &sworld{w: model.NewWorld(cfg), applied: map[string][]applyEvent{}}
 	sw.w.Sched = true
 	if seed != nil {
@@ -102,7 +104,24 @@ func newSWorld(cfg model.Config, seed []model.Write, watch ...string) *sworld {
 	}
 	// start from a non-initial state of the transaction pool: one transaction that
 	// failed and one that only read have been through it
-	sw.w.C.Query(func(txn *column.Txn) error { return fmt.Errorf("verif: warm-up transaction gives up") })
+	sw.w.C.Query(func(txn *column.Txn) error {
+		// ... after buffering an overwrite of R0 with other values and the deletion of R1:
+		// a transaction that gives up leaves nothing behind, in the collection or in the pool
+		if seed != nil {
+			txn.QueryAt(R0, func(r column.Row) error {
+				for _, x := range seed {
+					k := sw.w.M.Col(x.Col)
+					k.Set(r, x.Col, k.Values[len(k.Values)-1])
+					if k.Merge != nil && len(k.Deltas) > 0 {
+						k.Merge(r, x.Col, k.Deltas[0])
+					}
+				}
+				return nil
+			})
+			txn.DeleteAt(R1)
+		}
+		return fmt.Errorf("verif: warm-up transaction gives up")
+	})
 	sw.w.C.Query(func(txn *column.Txn) error { txn.Count(); return nil })
 	// commits emitted while seeding are not part of the scenario
 	sw.w.Commits = nil
